@@ -395,3 +395,5 @@ def check(ctx):
     check_pinning(ctx)
     check_allocator(ctx)
     c02.check_gc(ctx)
+    from . import c01
+    c01.check_trivial_move(ctx)    # inputs of a compaction leave the version in the install edit; a moved file stays live
